@@ -263,6 +263,20 @@ func evalC04(c *Ctx, cs *Case) {
 				color.NoColor = oldNC
 				c.Count("encoded_after_a_coloured_dry_run_of_the_same_tree", 1)
 			}
+			leadLF := false
+			for _, t := range cs.Tags {
+				if t == "name-leading-lf" {
+					leadLF = true // (YAML of such a name is known finding KF-C04-1: one call is enough)
+				}
+			}
+			if (cs.Idx+ri)%3 == 1 && !(enc == "yaml" && leadLF) {
+				// the same tree object has been encoded before, in massive mode: that call gets what the
+				// tree holds, and so does every later one (the library does not use up its argument)
+				mw := mon.NewRecWriter()
+				mo := Guard(func() error { return gtree.OutputFromRoot(mw, g, encOpt[enc], gtree.WithMassive(context.Background())) })
+				check("OutputFromRoot[massive, first use of the tree]", enc, mw.Bytes(), mo, model.Merge(model.Forest{root}))
+				c.Count("trees_encoded_again_after_a_massive_encode", 1)
+			}
 			o := Guard(func() error { return gtree.OutputFromRoot(w, g, encOpt[enc]) })
 			check("OutputFromRoot", enc, w.Bytes(), o, model.Merge(model.Forest{root}))
 		}
